@@ -77,3 +77,36 @@ func VH_C10_U1_invisible() {
 	s.check("ka", "rebuilt")
 	s.close()
 }
+
+// C10-U1r: the same end to end with the REAL quicklz.c (LLVM IR) instead of the contract
+// stub: set -> server-side compression by qlz_compress -> buffered read, flush, file read
+// (qlz_decompress), index rebuild: bytes, flags and value hash as set.
+func VH_C10_U1_invisible_real() {
+	vrt.QlzReal()
+	s := newScen(262144, false, "ka")
+	config.MCConf.BodyMax = 65536
+	n := []int{231, 300, 600, 1500}[vrt.Choice("size", 4)]
+	body := c10body(0, n)
+	t := vrt.Bytes("tail", 2)
+	body[n-1], body[n-2] = t[0], t[1]
+	flag := vrt.U32("flag") &^ FLAG_COMPRESS
+	s.set("ka", body, flag, 0)
+	want := Getvhash(body)
+	ki := NewKeyInfoFromBytes([]byte("ka"), getKeyHash([]byte("ka")), false)
+	meta, _, found := s.bkt().htree.get(ki)
+	vrt.Assert("buffered:tree-vhash-is-of-uncompressed-bytes", vrt.All(found, meta.ValueHash == want))
+	s.check("ka", "buffered")
+	s.flush()
+	s.check("ka", "flushed")
+	recs, ok := scanFile(genDataPath(s.dir, 0))
+	vrt.Assert("file-well-formed", ok && len(recs) == 1)
+	if ok && len(recs) == 1 {
+		vrt.Assert("client-flag-bits-preserved-on-disk", recs[0].flag&^FLAG_COMPRESS == flag)
+		vrt.Assert("really-compressed-on-disk-unless-client-compressed", vrt.Implies(flag&FLAG_CLIENT_COMPRESS == 0, recs[0].flag&FLAG_COMPRESS != 0 && len(recs[0].body) < n))
+	}
+	s.reopen(7)
+	meta, _, found = s.bkt().htree.get(ki)
+	vrt.Assert("rebuilt:tree-vhash-is-of-uncompressed-bytes", vrt.All(found, meta.ValueHash == want))
+	s.check("ka", "rebuilt")
+	s.close()
+}
